@@ -62,7 +62,7 @@ Definition pf_res (v : pyval) : res (pathterm pyval + pyval) :=
   match v with
   | VDict ((k0, v0) :: rest) =>
       match unescape_keys ((k0, v0) :: rest) [] [] false with
-      | Ok (d', true) => Ok (inr (VDict d'))
+      | Ok (d', true) => Ok (inr (VDict (fold_left (fun acc kv => dict_put (fst kv) (snd kv) acc) d' [])))
       | Ok (_, false) => Err MalformedPath
       | Err e => Err e
       end
